@@ -115,7 +115,30 @@ pub fn record(args: &[String]) {
     let mut out = std::io::BufWriter::new(std::fs::File::create(&args[2]).unwrap());
     let mut rng = StdRng::seed_from_u64(seed);
     for i in 0..n {
-        if i % 2 == 0 {
+        if i % 7 == 6 {
+            // format auto-detection (beyond the listed properties): `render -f auto` and `check`
+            // without --format, next to the explicit-format results they must agree with
+            const BOTH: &[&str] = &["1.2.3", "v1.2.3", "1.2.3-1", "1.2.3-alpha.1", "1.2.3-rc", "1.2.3-post.4", "1.2.3-dev", "1.2.3+abc", "1.2.3-a-1",
+                                    "1.2.3-ALPHA.1", "0.0.0", "1.2.3-0", "1.2.3-c1", "1.2.3-pre", "1.2.3-r5", "1.2.3-beta+l.01", "V1.2.3", "1.2.3-alpha.01"];
+            let s = match rng.gen_range(0..4) {
+                0 => BOTH[rng.gen_range(0..BOTH.len())].to_string(),
+                1 => crate::semver::random_version(&mut rng),
+                2 => crate::pep440::random_version(&mut rng),
+                _ => { let t = crate::semver::random_version(&mut rng); t.replace(|c: char| !c.is_ascii(), "").trim().to_string() }
+            };
+            let chk = |fmt: Option<&str>| {
+                let mut a = vec!["check", s.as_str()];
+                if let Some(f) = fmt { a.push("--format"); a.push(f); }
+                let o = run_cli(&argv(&a), None);
+                let lines: Vec<Value> = o.ok().map(|t| t.split('\n').map(to_cps).collect()).unwrap_or_default();
+                json!({"ok": o.ok().is_some(), "panic": matches!(o, Outcome::Panic(_)), "lines": lines})
+            };
+            writeln!(out, "{}", json!({"k": "auto", "s": to_cps(&s),
+                "au_sv": res(&conv(&s, "auto", "semver")), "au_pp": res(&conv(&s, "auto", "pep440")),
+                "sv_sv": res(&conv(&s, "semver", "semver")), "sv_pp": res(&conv(&s, "semver", "pep440")),
+                "pp_sv": res(&conv(&s, "pep440", "semver")), "pp_pp": res(&conv(&s, "pep440", "pep440")),
+                "chk": chk(None), "chk_sv": chk(Some("semver")), "chk_pp": chk(Some("pep440"))})).unwrap();
+        } else if i % 2 == 0 {
             // an (often) accepted PEP 440 string in a random spelling
             let s = crate::pep440::random_version(&mut rng);
             let sv = conv(&s, "pep440", "semver");
